@@ -10,7 +10,7 @@ open Std
 namespace DD
 
 /-- with reordering not armed, `find_or_add` is its core -/
-theorem findOrAdd_off (m : Mgr) (hoff : m.ctx = false ∨ m.lastLen = none) (i : Nat) (a b : Int) :
+theorem findOrAdd_eq_core (m : Mgr) (hoff : m.ctx = false ∨ m.lastLen = none) (i : Nat) (a b : Int) :
     findOrAdd (i : Int) a b m = findOrAddCore i a b m := by
   unfold findOrAdd
   have hnn : ¬ ((i : Int) < 0) := by omega
@@ -312,9 +312,9 @@ theorem moveDepStep_spec {m0 m : Mgr} {x : Nat} {pend : Nat → Prop} (hI : Inv 
       M.bind_ok hdc]
     simp only
     have hfp' : findOrAdd ((x + 1 : Nat) : Int) (cof m0.tbl (x + 1) n.lo).1 (cof m0.tbl (x + 1) n.hi).1 mb =
-        (.ok p, mc) := by rw [findOrAdd_off _ hoffb]; exact hfp
+        (.ok p, mc) := by rw [findOrAdd_eq_core _ hoffb]; exact hfp
     have hfq' : findOrAdd ((x + 1 : Nat) : Int) (cof m0.tbl (x + 1) n.lo).2 (cof m0.tbl (x + 1) n.hi).2 mc =
-        (.ok q, md) := by rw [findOrAdd_off _ hoffc]; exact hfq
+        (.ok q, md) := by rw [findOrAdd_eq_core _ hoffc]; exact hfq
     rw [M.bind_ok hfp', M.bind_ok hfq']
     have hq0 : decide (0 ≤ q) = true := by simp; omega
     have hpq' : (decide ¬ p = q) = true := by simp [hpq]
